@@ -94,7 +94,10 @@ def plan_st(draw, tier):
             cfg["np"][1]["no_nhood_prob_of_arm"] = draw(gen.prob_list_st(len(arms)))
     else:
         cfg["np"][1]["k"] = draw(st.integers(1, len(h.ops[0][1])))     # k <= rows of the first fit
-    return {"config": cfg, "ops": h.ops, "queries": queries}
+    # the oracle is evaluated after the last training call and after a drawn subset of the earlier ones (a stale
+    # cache filled by an early query must not hide rows added later)
+    early = [i for i in range(len(h.ops) - 1) if draw(st.booleans())]
+    return {"config": cfg, "ops": h.ops, "queries": queries, "check_after": early}
 
 
 def strategy(tier, ctx):
@@ -119,6 +122,9 @@ def evaluate(plan, ctx):
     metric = params["metric"]
     mab = ops.build(cfg)
     dec, rew, cx, origin = [], [], [], []
+    arms = list(cfg["arms"])
+    ev = ["np=" + which, "lp=" + cfg["lp"][0], "metric=" + metric]
+    state = {"nt": False, "skipped": False}
     for i, op in enumerate(plan["ops"]):
         o = ops.apply_op(mab, op)
         if ops.is_exc(o):
@@ -127,10 +133,18 @@ def evaluate(plan, ctx):
         rew += op[2]
         cx += op[3]
         origin += [i] * len(op[1])
-    arms = list(cfg["arms"])
-    ev = ["np=" + which, "lp=" + cfg["lp"][0], "metric=" + metric]
-    nt = False
-    skipped = False
+        if i in plan.get("check_after", []) and (which != "KNearest" or len(cx) >= params["k"]):
+            ev.append("checked_between_training_calls")
+            check_queries(plan, cfg, mab, arms, dec, rew, cx, origin, ev, state)
+    check_queries(plan, cfg, mab, arms, dec, rew, cx, origin, ev, state)
+    return Result(state["nt"], ev, state["skipped"])
+
+
+def check_queries(plan, cfg, mab, arms, dec, rew, cx, origin, ev, state):
+    which, params = cfg["np"]
+    metric = params["metric"]
+    nt = state["nt"]
+    skipped = state["skipped"]
     linear = cfg["lp"][0] in ops.LINEAR
     tol = 1e-9 if linear else 0.0
     for q in plan["queries"]:
@@ -200,7 +214,8 @@ def evaluate(plan, ctx):
         p = ops.apply_op(mab, ["predict", [q]])
         if ops.is_exc(p) or p[1] not in arms:
             raise Violation("predict_member", "predict(%r) gave %s" % (q, ops.short(p)))
-    return Result(nt, ev, skipped)
+        state["nt"], state["skipped"] = nt, skipped
+    state["nt"], state["skipped"] = nt or state["nt"], skipped or state["skipped"]
 
 
 # ---- empty-neighbourhood distribution ----------------------------------------------------------------------
